@@ -1,5 +1,8 @@
 (* C12/Proofs_write.v — Cloader.write_flash: bounded retry, honest acknowledgements, effect on the target *)
-From CF Require Import Common.Bytes C12.Model C12.Lists C12.Proofs_upload.
+From CF Require Import Common.Bytes.
+From CF Require Import C12.Model.
+From CF Require Import C12.Lists.
+From CF Require Import C12.Proofs_upload.
 From Coq Require Import ZifyBool.
 Open Scope Z_scope.
 
